@@ -195,6 +195,10 @@ func main() {
 	case "scanworker":
 		scanWorker(os.Args[2])
 		return
+	case "genworker":
+		limitMemory(12 << 30)
+		genWorker(os.Args[2], os.Args[3])
+		return
 	case "exploreworker":
 		exploreWorker(exploreScenarios(os.Args[2], os.Args[3], os.Args[4]))
 		return
